@@ -44,7 +44,8 @@ var seamNames = [...]string{"before-sync", "after-sync", "send", "reply"}
 type crashArm struct {
 	kind      seamKind
 	countdown int
-	all       bool // take every other live node down at the same instant
+	all       bool   // take every other live node down at the same instant
+	lose      string // scripted: which unsynced sectors are lost
 }
 
 // incarnation is one process lifetime of a node.
@@ -224,6 +225,8 @@ type Sim struct {
 	rconfDel        bool
 	rconfDelHighest bool
 	issued          int
+	scriptLose      string
+	lastLeader      int
 	rconfAdd        bool
 	joiner          int // node id waiting to be started after rconf add
 	pendingCrash    []string
@@ -462,7 +465,9 @@ func (s *Sim) seam(inc *incarnation, kind seamKind) bool {
 		a.countdown--
 		if a.countdown <= 0 {
 			inc.arm = nil
+			s.scriptLose = a.lose
 			s.crashLocked(inc, "crash-"+seamNames[kind])
+			s.scriptLose = ""
 			if a.all {
 				for _, ns := range s.nodes {
 					if ns.inc != nil && !ns.inc.dead && ns.inc != inc && !ns.down {
@@ -495,6 +500,21 @@ func (s *Sim) crashLocked(inc *incarnation, kind string) {
 	dst := filepath.Join(s.base, fmt.Sprintf("n%dg%d", ns.id, ns.gen))
 	cs, err := s.shadow.materialise(inc.dir, dst, func(n int) []bool {
 		lost := make([]bool, n)
+		switch s.scriptLose {
+		case "none":
+			return lost
+		case "all":
+			for i := range lost {
+				lost[i] = true
+			}
+			return lost
+		case "first":
+			lost[0] = true
+			return lost
+		case "last":
+			lost[n-1] = true
+			return lost
+		}
 		mode := s.tape.Draw(4)
 		if s.k.SectorLoss == "all-or-none" && mode >= 2 {
 			mode = 1
@@ -723,6 +743,18 @@ func (s *Sim) refreshStatus() {
 		}
 		vec = append(vec, fmt.Sprintf("%d/%d/%d/%d", st.Term, st.RaftState, st.Commit, ns.view.applied))
 	}
+	if l := s.leaderID(); l != 0 && l != s.lastLeader {
+		if s.lastLeader != 0 {
+			s.probe("leader-changed")
+			for _, c := range s.cs {
+				if c.cur != nil {
+					s.probe("leader-changed-while-command-pending")
+					break
+				}
+			}
+		}
+		s.lastLeader = l
+	}
 	hs := core.HashString(strings.Join(vec, " "))
 	if len(s.res.States) < 20000 {
 		s.res.States = append(s.res.States, hs)
@@ -893,6 +925,9 @@ func (s *Sim) mainLoop() {
 		}
 		s.step++
 		s.res.Steps++
+		if s.fireScript() {
+			continue
+		}
 		// the adversary
 		f := &s.sc.Faults
 		if len(f.Kinds) > 0 && s.faultsFired < f.MaxFault && s.tape.Chance(f.RatePM, 1000) {
@@ -1168,6 +1203,28 @@ func (s *Sim) noteCommand(args []B) {
 	switch name {
 	case "rpush", "lpush", "lpushx", "rpushx", "lmove", "linsert":
 		s.listSeen = true
+	case "rconf":
+		// a membership change written into a client program
+		if len(args) >= 3 {
+			id, _ := strconv.Atoi(string(args[2]))
+			switch strings.ToLower(string(args[1])) {
+			case "delete":
+				s.rconfDel = true
+				s.fault("rconf-delete")
+				s.rconfDelHighest = id == len(s.nodes)
+				if id >= 1 && id <= len(s.nodes) {
+					s.nodes[id-1].removed = true
+				}
+			case "add":
+				if id == len(s.nodes)+1 && len(args) >= 4 {
+					s.rconfAdd = true
+					s.fault("rconf-add")
+					s.nodes = append(s.nodes, &nodeState{id: id})
+					s.res.Nodes = s.nodes
+					s.joiner = id
+				}
+			}
+		}
 	}
 	if s.prop == "C14" {
 		s.lastCmdClass = argClass(args)
